@@ -28,7 +28,11 @@ claim("C14",
       "Static: complete path enumeration of the loop-free per-message function (handler at most once, only after accept and decode; otherwise refused, ignored or reported), reject/NOTIMP/ignore reply construction, the default accept policy as a decision list with bit-provenance of QR and opcode, effect summaries of the reply skeletons, and the multiplexer's lock discipline, canonical keys, label-boundary walk, DS continuation, root-last and REFUSED edge. 'Never panics' and longest-suffix optimality over all pattern sets are not decided.",
       STATIC_NOTE, "path enumeration over SSA CFG; edge-dominance guards; bit provenance; lockset")
 
+claim("C10",
+      "Static, all paths: RRSIG.Verify's success only from the verifier's verdict and only after all twelve listed pre-checks (edge dominance on the SSA CFG with field-path-exact guard matching), digest input order, rrsigWireFmt conformance and both fill sites, rawSignatureData writes only to copies / substitutes OrigTtl and canonical owner on every path / lower-cases every embedded name of every RFC 4034 s.6.2 type / sorts then de-duplicates / orders by RDATA, RRSIG.Sign field filling, RSA size limits. The equality of the signed octet string with RFC 4034 for all inputs and the cryptographic facts are not decided.",
+      STATIC_NOTE, "guarded-success (edge dominance) on SSA; must-pass; type-switch exhaustiveness against RFC list and struct tags")
+
 _pending = "rules for this property are designed (DESIGN.md §4) but not implemented yet; not claimed until they run"
-for p in ["C02","C03","C05","C06","C07","C09","C10","C11","C12","C15","C16","C18"]:
+for p in ["C02","C03","C05","C06","C07","C09","C11","C12","C15","C16","C18"]:
     na(p, _pending)
 na("C19", "every clause is an equality between index arithmetic on a runtime string and its label sequence; no pairing/ownership/ordering/table structure to decide statically (DESIGN.md §8)")
